@@ -6,6 +6,7 @@ V=$(cd "$(dirname "$0")/.." && pwd)
 W=$(mktemp -d /tmp/refac_wt.XXXX); C=$(mktemp -d /tmp/refac_cache.XXXX)
 git -C /repo worktree add -q --detach "$W/wt" HEAD
 for d in "$@"; do
+  d=$(cd "$d" && pwd)
   echo "=== $d"
   git -C "$W/wt" checkout -q -- . && git -C "$W/wt" apply "$d/patch.diff" || { echo "APPLY FAILED"; continue; }
   for c in $(python3 -c "import json;print(' '.join(x['property_id'] for x in json.load(open('$V/MANIFEST.json'))['checks']))"); do
